@@ -70,9 +70,9 @@ def skip_rule(P, D, rep, rid, dw, wcls):
                 w = I.instantiate(dw, [], {}, None)
                 sw = AObj(wcls, 'streaming-writer')
                 I.frames = []
-                entry = dw.find_method('_write_section')
+                entry = _content_section_writer(dw)
                 if entry is None:
-                    raise AnalysisError('DiffXDOMWriter._write_section not found (anchor vanished)')
+                    raise AnalysisError('the DOM writer method that dispatches content sections (getattr(writer, "write_%s" % ...)) was not found (anchor vanished)')
                 I.call_function(entry, [w, o, sw], {}, None, self_cls=dw)
                 return list(calls)
             for path in I.explore(thunk):
@@ -95,6 +95,48 @@ def skip_rule(P, D, rep, rid, dw, wcls):
                         rep.ok(rid, '%s: %s is skipped' % (cname, label))
                     else:
                         rep.info('%s with %s content is written (calls %s)' % (cname, label, [g[0] for g in got]))
+
+
+def _content_section_writer(dw):
+    """The DOM writer method that writes one content section: the one that looks up ``write_<name>`` on the streaming
+    writer (found by that lookup, whatever the method is called)."""
+    found = []
+    for c in dw.repo_mro():
+        for m in c.methods.values():
+            for n in ast.walk(m.node):
+                if isinstance(n, ast.Constant) and isinstance(n.value, str) and n.value.startswith('write_') and '%' in n.value:
+                    if m not in found:
+                        found.append(m)
+                if isinstance(n, ast.JoinedStr) and n.values and isinstance(n.values[0], ast.Constant) and str(n.values[0].value).startswith('write_'):
+                    if m not in found:
+                        found.append(m)
+    return found[0] if len(found) == 1 else None
+
+
+def find_remap_table(P, dw):
+    """The DOM writer's option rename table, found by its shape wherever it is kept and whatever it is called: a
+    class-level (or module-level) constant mapping section names to {option name: streaming-writer keyword}."""
+    cands = {}
+    holders = [(c, n) for c in dw.repo_mro() for n in c.attrs]
+    for c, n in holders:
+        try:
+            v = P.fold_class_attr(c, n)
+        except Exception:
+            continue
+        if isinstance(v, dict) and v and all(isinstance(k, str) and isinstance(x, dict) and x and
+                                             all(isinstance(a, str) and isinstance(b, str) for a, b in x.items()) for k, x in v.items()):
+            cands[n] = v
+    for n, expr in dw.module.assigns.items():
+        try:
+            v = P.fold_module_const(dw.module.name, n)
+        except Exception:
+            continue
+        if isinstance(v, dict) and v and all(isinstance(k, str) and isinstance(x, dict) and x and
+                                             all(isinstance(a, str) and isinstance(b, str) for a, b in x.items()) for k, x in v.items()):
+            cands[n] = v
+    if len(cands) > 1:
+        raise AnalysisError('several candidate option rename tables in the DOM writer: %s' % sorted(cands))
+    return next(iter(cands.values())) if cands else {}
 
 
 def reemit_rule(P, D, rep, rid, dw, remap):
@@ -215,10 +257,7 @@ def run(P, rep, tier):
     wcls = P.cls('pydiffx.writer', 'DiffXWriter')
     dw = P.cls('pydiffx.dom.writer', 'DiffXDOMWriter')
     dr = P.cls('pydiffx.dom.reader', 'DiffXDOMReader')
-    try:
-        remap = P.fold_class_attr(dw, '_remapped_options')
-    except Unfoldable:
-        remap = {}
+    remap = find_remap_table(P, dw)
     for c in (dw, dr):
         for f in c.methods.values():
             rep.analysed(f)
